@@ -1,8 +1,10 @@
 """saml2_tophat.sigver — signature checking and the external tool (C01, C03, C10, C15, C20)."""
-from pyvc.spec import contract
+from pyvc.spec import contract, macro
 from pyvc.state import ghost
 
 ghost('splitlines', ['Str'], 'Seq')
+# the document the tool sees: bytes as given, text as its UTF-8 encoding
+macro('DOC', ['x'], 'ite(is_bytes(x), x, as_type(vbytes(utf8(str_of(x))), "Bytes"))')
 OKLINE = ("exists(lambda k: splitlines(output)[k] == 'OK' and "
           "forall(lambda j: splitlines(output)[j] != 'OK' and splitlines(output)[j] != 'FAIL', 0, k), "
           "0, len(splitlines(output)))")
@@ -101,3 +103,61 @@ contract(SC + '._check_signature',
          comps={0: {'elem': ['res_i[1] == tmpfile(pem(src_i))', 'truthy(res_i[1])'], 'type': 'Tuple(Any, Str)'}},
          clauses_from={'C01': ['C03-verified-under-issuer-key'], 'C03': ['C03-verified-under-issuer-key'],
                        'C10': ['C03-verified-under-issuer-key'], 'C20': ['C03-verified-under-issuer-key']})
+
+
+# ================================================================================================ the external tool (C20, E-PROC)
+from pyvc.state import declare_class, axiom
+XB = 'saml2_tophat.sigver:CryptoBackendXmlSec1'
+declare_class('tempfile:_TemporaryFileWrapper', fields={'name': 'Str'},
+              methods={'seek': 'tempfile:ntf.seek', 'read': 'tempfile:ntf.read', 'write': 'tempfile:ntf.write'})
+declare_class('subprocess:Popen', fields={'returncode': 'Opt(Int)'})
+declare_class(XB, fields={'xmlsec': 'Str', '_xmlsec_delete_tmpfiles': 'Any'})
+ghost('proc_ran', ['Seq', 'Val'], 'Bool')       # a process was started with this argv and wrote this text to stderr
+ghost('popen_argv', ['Val'], 'Seq')
+ghost('content', ['Val'], 'Val')                # content of a temporary file by name (E-TMPFILE)
+axiom('tmpfile', 'E-TMPFILE', "forall(lambda c: implies(tmpfile(c) == tmpfile(c), content(tmpfile(c)) == c and is_str(tmpfile(c))), 'Val')")
+
+NTF = "Inst('tempfile:_TemporaryFileWrapper')"
+contract('tempfile:NamedTemporaryFile', trusted=True, pure=True, params=['suffix', 'delete'],
+         defaults={'suffix': '', 'delete': True}, returns=NTF, ensures=['truthy(result.name)'],
+         raises={'OSError': 'True'}, assumptions=['E-TMPFILE'])
+contract('tempfile:ntf.seek', trusted=True, pure=True, params=['self', 'pos'], assumptions=['E-TMPFILE'])
+contract('tempfile:ntf.read', trusted=True, pure=True, params=['self'], returns='Bytes', assumptions=['E-PROC'],
+         note='E-PROC: the --output file holds ANY bytes after the tool ran')
+contract('subprocess:Popen', trusted=True, params=['self', 'args', 'stderr', 'stdout'],
+         defaults={'stderr': None, 'stdout': None}, types={'args': 'List(Str)'},
+         ensures=['popen_argv(self) == seq(args)'], raises={'OSError': 'True'}, assumptions=['E-PROC'],
+         note='E-PROC: the program may not be startable at all')
+contract('subprocess:Popen.communicate', trusted=True, params=['self'], returns='Tuple(Bytes, Bytes)',
+         ensures=['proc_ran(popen_argv(self), vstr(unutf8(result[1])))'], modifies=['self.returncode'],
+         assumptions=['E-PROC'], note='E-PROC: any return code (or None), any stdout / stderr bytes')
+
+# E-XMLSEC (verify): an OK line from `xmlsec1 --verify --enabled-reference-uris empty,same-doc --pubkey-cert-<t> C
+#   --id-attr:<a> <name> --node-id <id> --output <o> <file>` means XS_OK(content(file), name, id, C)
+_OK = ("exists(lambda k: splitlines(str_of(e))[k] == 'OK' and forall(lambda j: splitlines(str_of(e))[j] != 'OK' and "
+       "splitlines(str_of(e))[j] != 'FAIL', 0, k), 0, len(splitlines(str_of(e))))")
+axiom('proc_ran', 'E-XMLSEC-VERIFY',
+      "forall(lambda a, e: implies(proc_ran(a, e) and is_str(e) and (%s) and len(a) == 13 "
+      "and a[1] == '--verify' and a[2] == '--enabled-reference-uris' and a[3] == 'empty,same-doc' "
+      "and is_str(a[4]) and prefixof('--pubkey-cert-', str_of(a[4])) and is_str(a[6]) and prefixof('--id-attr:', str_of(a[6])) "
+      "and a[8] == '--node-id' and a[10] == '--output', "
+      "XS_OK(content(a[12]), a[7], a[9], a[5])), ['Seq', 'Val'])" % _OK)
+
+contract(XB + '._run_xmlsec',
+         types={'com_list': 'List(Str)', 'extra_args': 'List(Str)', 'validate_output': 'Any', 'exception': 'Any'},
+         returns='Tuple(Str, Str, Bytes)',
+         requires=['com_list != extra_args'],
+         ensures=[('ran', "exists(lambda n: is_str(n) and proc_ran(old(seq(com_list)) + ['--output', n] + seq(extra_args), result[1]), 'Val')"),
+                  ('C20-validated', 'implies(truthy(validate_output), %s)' % OKLINE.replace('output', 'str_of(result[1])'))],
+         raises={'XmlsecError': 'True', 'OSError': 'True', 'UnicodeDecodeError': 'True'},
+         modifies=['list(com_list)'],
+         clauses_from={'C20': ['C20-validated', 'raises.XmlsecError']})
+
+contract(XB + '.validate_signature',
+         types={'signedtext': 'Union(Str, Bytes)', 'cert_file': 'Str', 'cert_type': 'Str', 'node_name': 'Str',
+                'node_id': 'Opt(Str)', 'id_attr': 'Str'},
+         returns='Bool',
+         ensures=[('true', 'result is True'),
+                  ('C20-ok-means-verified', 'implies(truthy(node_id), XS_OK(DOC(signedtext), node_name, node_id, cert_file))')],
+         raises={'XmlsecError': 'True', 'OSError': 'True', 'UnicodeDecodeError': 'True'}, modifies=[],
+         clauses_from={'C20': ['C20-ok-means-verified'], 'C01': ['C20-ok-means-verified']})
